@@ -8126,7 +8126,9 @@ bool TraverseSchema::isWildCardSubset(const SchemaAttDef* const baseAttWildCard,
             return true;
         }
         else if (baseWildCardType == XMLAttDef::Any_Other) {
-            if (!childURIList->containsElement(baseAttWildCard->getAttName()->getURI())) {
+            // neither the negated namespace nor absent may be in sub's set
+            if (!childURIList->containsElement(baseAttWildCard->getAttName()->getURI()) &&
+                !childURIList->containsElement(fEmptyNamespaceURI)) {
                 return true;
             }
         }
